@@ -1,7 +1,10 @@
 package harness
 
 import (
+	"bytes"
+	"encoding/binary"
 	"fmt"
+	"github.com/jcmturner/gokrb5/v8/pac"
 	"strings"
 	"sync"
 	"time"
@@ -192,6 +195,7 @@ func mintAPReqKey(m *Model, rng *RNG, c apCase, now time.Time) (messages.APReq, 
 		return ap, nil, err
 	}
 	sessionKey.KeyValue = randKey(rng, c.et)
+	lastMintedSessionKey = append([]byte{}, sessionKey.KeyValue...)
 	fl := types.NewKrbFlags()
 	types.SetFlag(&fl, 1) // forwardable
 	if c.invalid {
@@ -229,6 +233,23 @@ func mintAPReqKey(m *Model, rng *RNG, c apCase, now time.Time) (messages.APReq, 
 				bufs = append(bufs, pacBuf{6, sigBuf(sty, false, rng)})
 			case 7:
 				bufs = append(bufs, pacBuf{7, sigBuf(sty, false, rng)})
+			case 1:
+				// the six times of the logon information are made pairwise different (the samples give several of them
+				// the same "never" value): each one is reported as what its own field holds
+				d := append([]byte{}, bf.data...)
+				var k pac.KerbValidationInfo
+				if k.Unmarshal(bf.data) == nil {
+					lt := make([]byte, 8)
+					binary.LittleEndian.PutUint32(lt, k.LogOnTime.LowDateTime)
+					binary.LittleEndian.PutUint32(lt[4:], k.LogOnTime.HighDateTime)
+					if at := bytes.Index(d, lt); at >= 0 && at+48 <= len(d) && bytes.Index(d[at+1:], lt) < 0 {
+						base := binary.LittleEndian.Uint64(lt)
+						for j := 1; j <= 5; j++ {
+							binary.LittleEndian.PutUint64(d[at+8*j:], base+uint64(j)*36000000000) // + j hours
+						}
+					}
+				}
+				bufs = append(bufs, pacBuf{1, d})
 			case 10:
 				// PAC_CLIENT_INFO names the client in another letter case than the logon information does: what is
 				// reported to the application comes from the logon information (KERB_VALIDATION_INFO)
@@ -358,6 +379,9 @@ func mintAPReqKey(m *Model, rng *RNG, c apCase, now time.Time) (messages.APReq, 
 // the AP-REQ minted last as it is without anything appended in the clear (what the appended cleartext must not
 // change the verdict on: the independent acceptor judges these octets)
 var lastMintedPlain []byte
+
+// the session key inside the ticket of the AP-REQ minted last
+var lastMintedSessionKey []byte
 
 // the PAC of the AP-REQ minted last (for comparing what the service reports with what the PAC holds)
 var lastMintedPAC []byte
